@@ -224,7 +224,12 @@ class Gen:
         m = mk([['a', ['in', st['id']]]], 'private_rec')
         d = mk([['a', ['in', m['id']]]], 'dest', kind='dest', recurrent=True)
         d['plan'].update({'start': st['id'], 'want_iter': {str(v): rng.choice([1, 2]) for v in self.p['inputs']}})
-        slow = mk([['a', ['in', 'N0']]])
+        # the slow dependency sits at the end of a chain that is as deep as the destination, so that the sequential
+        # launch loop reaches the destination BEFORE the outside reader (otherwise the re-iteration cannot even start
+        # before the reader has been launched)
+        p1 = mk([['a', ['in', 'N0']]])
+        p2 = mk([['a', ['in', p1['id']]]])
+        slow = mk([['a', ['in', p2['id']]]])
         side = mk([['a', ['in', m['id']]], ['b', ['in', slow['id']]]])
         k = len(consumer['params'])
         consumer['params'].extend([[f'rs{k}', ['rec', st['id'], d['id'], 3]], [f'rs{k + 1}', ['in', side['id']]]])
